@@ -43,11 +43,6 @@ Definition closes_str (cs : list (option sym)) : pystr := flat_map (fun a => ")"
 Definition closes_toks (cs : list (option sym)) : list tok := flat_map (fun a => TClose :: osym_tok a) cs.
 (** only the last closing may be followed by a bond symbol (a symbol in front of a further ")" has no
     node that consumes it: [Grammar.consumers_item]) *)
-Fixpoint closes_ok (cs : list (option sym)) : bool :=
-  match cs with
-  | [] => true
-  | a :: r => match r with [] => true | _ => negb (is_some a) && closes_ok r end
-  end.
 (** the end of the text, or the next node *)
 Definition contz (k : pystr) : Prop := k = [] \/ cont k.
 Lemma contz_no_close a k : contz k ->
@@ -146,16 +141,10 @@ Proof.
 Qed.
 
 (** ** flat items with several closings *)
-Record xlin := { x_open : bool; x_name : pystr; x_mult : option (list nat); x_rings : list (option sym * marker);
-                 x_bond : option sym; x_closes : list (option sym) }.
-Definition xbase (x : xlin) : lin :=
-  {| l_open := x_open x; l_name := x_name x; l_mult := x_mult x; l_rings := x_rings x; l_bond := x_bond x; l_close := None |}.
 Definition xlin_str (x : xlin) : pystr := lin_str (xbase x) ++ closes_str (x_closes x).
 Definition xlin_toks (x : xlin) : list tok := lin_toks (xbase x) ++ closes_toks (x_closes x).
 Definition xlins_str (l : list xlin) : pystr := flat_map xlin_str l.
 Definition xlins_toks (l : list xlin) : list tok := flat_map xlin_toks l.
-Definition xlin_ok (fo : float_oracle) (x : xlin) : bool :=
-  lin_ok fo (xbase x) && (is_nil (x_closes x) || negb (is_some (x_bond x))) && closes_ok (x_closes x).
 (** parentheses balance: no closing without an open branch *)
 Fixpoint xdepth (d : nat) (l : list xlin) : bool :=
   match l with
